@@ -60,7 +60,8 @@ type c27Query struct {
 	Shape   int      `json:"shape"`   // reduce: 0 op(sel) 1 fn(sel[w]) 2 op(fn(sel[w])) 3 fn(op(sel)[w:])
 	What    string   `json:"what"`    // explicit __what__
 	Filter  string   `json:"filter"`  // extra matcher text, e.g. a="v1" (may be empty)
-	Inner   string   `json:"inner"`   // plus0 | neg | abs | mul2
+	Inner   string   `json:"inner"`   // plus0 | neg | abs | mul2 | gt | lt
+	Thr     vpF      `json:"thr"`     // threshold of the comparison filter (inner gt / lt)
 }
 
 type c27Case struct {
@@ -76,6 +77,7 @@ type c27Case struct {
 // ---------------- simulator ----------------
 
 type c27Sent struct {
+	Keys    []string // label sets of the returned series, in the order the storage returned them
 	GroupBy []int
 	Range   int64
 	Whats   []DigestWhat
@@ -86,6 +88,7 @@ type c27Sim struct {
 	metric *format.MetricMetaValue
 	rows   []c27Row
 	sent   []c27Sent
+	seed   uint64 // decides the order in which the storage returns series (ClickHouse order is arbitrary)
 }
 
 func c27NewSim(c c27Case) (*c27Sim, error) {
@@ -97,7 +100,7 @@ func c27NewSim(c c27Case) (*c27Sim, error) {
 	if err := m.RestoreCachedInfo(); err != nil {
 		return nil, err
 	}
-	return &c27Sim{metric: m, rows: c.Rows}, nil
+	return &c27Sim{metric: m, rows: c.Rows, seed: c.Seed}, nil
 }
 
 func c27TagString(id int64) string {
@@ -303,6 +306,20 @@ func (s *c27Sim) QuerySeries(ctx context.Context, qry *SeriesQuery) (Series, fun
 		keys = append(keys, k)
 	}
 	sort.Strings(keys)
+	for i, x := len(keys)-1, s.seed*0x9E3779B97F4A7C15+1; i > 0; i-- { // Fisher-Yates with a fixed LCG
+		x = x*6364136223846793005 + 1442695040888963407
+		j := int((x >> 33) % uint64(i+1))
+		keys[i], keys[j] = keys[j], keys[i]
+	}
+	for _, k := range keys {
+		l := map[string]string{}
+		for i, tx := range by {
+			if v := keyTags[k][i]; v != 0 {
+				l[format.TagID(tx)] = c27TagString(int64(v))
+			}
+		}
+		s.sent[len(s.sent)-1].Keys = append(s.sent[len(s.sent)-1].Keys, c27Key(l))
+	}
 	for _, what := range qry.Whats {
 		for _, k := range keys {
 			vals := make([]float64, len(ts))
@@ -342,6 +359,7 @@ type c27Series struct {
 	Labels map[string]string // tag ID -> value (non-empty values only, no __name__)
 	Key    string
 	V      []float64
+	Pos    int // position in the result as returned by the engine
 }
 
 type c27Result struct {
@@ -385,6 +403,7 @@ func c27Exec(c c27Case, expr string, start int64) (c27Result, error) {
 			sr.Labels[id] = tg.SValue
 		}
 		sr.Key = c27Key(sr.Labels)
+		sr.Pos = len(res.Series)
 		res.Series = append(res.Series, sr)
 	}
 	sort.Slice(res.Series, func(i, j int) bool { return res.Series[i].Key < res.Series[j].Key })
@@ -445,6 +464,10 @@ func c27Inner(q c27Query) string {
 		return "abs(" + sel + ")"
 	case "mul2":
 		return sel + " * 2"
+	case "gt": // comparison filter: points not above the threshold become missing, whole series may become empty
+		return sel + " > " + c27Num(float64(q.Thr))
+	case "lt":
+		return sel + " < " + c27Num(float64(q.Thr))
 	default:
 		return sel + " + 0"
 	}
@@ -693,7 +716,7 @@ func c27PropAgg(t vpT, c c27Case, st *c27Stats) {
 	if len(S.Series) == 0 {
 		st.cl("no-input-series")
 	}
-	if q.Op == "topk" || q.Op == "bottomk" {
+	if q.Op == "topk" || q.Op == "bottomk" || q.Op == "sort" || q.Op == "sort_desc" {
 		c27CheckTopK(t, c, st, expr, R, S, groups)
 		return
 	}
@@ -819,6 +842,37 @@ func c27SameValues(a, b []float64) bool {
 func c27CheckTopK(t vpT, c c27Case, st *c27Stats, expr string, R, S c27Result, groups map[string][]c27Series) {
 	q := c.Q
 	k := int(float64(q.Param))
+	sorting := q.Op == "sort" || q.Op == "sort_desc"
+	if sorting {
+		k = math.MaxInt32 // the StatsHouse aggregator forms keep every series that has points
+	}
+	// series the storage returned that have no point left in the evaluated range (data only before the start, or emptied by
+	// the comparison filter): they must neither appear nor take the place of a series that has points
+	if len(R.Sent) == 1 {
+		has := map[string]bool{}
+		for _, s := range S.Series {
+			has[s.Key] = true
+		}
+		keys := R.Sent[0].Keys
+		empties := 0
+		for _, key := range keys {
+			if !has[key] {
+				empties++
+			}
+		}
+		if empties >= 1 {
+			st.cl("topk:empty-series-in-storage-answer")
+		}
+		if empties >= 2 {
+			st.cl("topk:>=2-empty-series")
+			if !has[keys[len(keys)-1]] {
+				st.cl("topk:>=2-empty-series-last-one-empty")
+				if !sorting && k >= 1 && k <= len(S.Series) {
+					st.cl("topk:>=2-empty-last-empty-and-k<=n")
+				}
+			}
+		}
+	}
 	in := map[string]c27Series{}
 	nonneg := true
 	for _, s := range S.Series {
@@ -860,12 +914,15 @@ func c27CheckTopK(t vpT, c c27Case, st *c27Stats, expr string, R, S c27Result, g
 			st.cl("topk-drops-series")
 			st.nt = true
 		}
+		if sorting && len(g) >= 2 {
+			st.nt = true
+		}
 		if !nonneg {
 			continue
 		}
 		for _, a := range g {
 			for _, b := range g {
-				if kept[a.Key] == kept[b.Key] {
+				if kept[a.Key] == kept[b.Key] && !(sorting && a.Key != b.Key) {
 					continue
 				}
 				// a strictly dominates b: a present and greater wherever b is present, b present somewhere
@@ -883,6 +940,20 @@ func c27CheckTopK(t vpT, c c27Case, st *c27Stats, expr string, R, S c27Result, g
 					continue
 				}
 				st.cl("topk-dominance-checked")
+				if sorting && kept[a.Key] && kept[b.Key] {
+					pa, pb := -1, -1
+					for _, r := range R.Series {
+						if r.Key == a.Key {
+							pa = r.Pos
+						}
+						if r.Key == b.Key {
+							pb = r.Pos
+						}
+					}
+					if (q.Op == "sort" && pa < pb) || (q.Op == "sort_desc" && pa > pb) {
+						t.Fatalf("%s: {%s} %v is greater than {%s} %v at every point but they are returned at positions %d and %d", expr, a.Key, a.V, b.Key, b.V, pa, pb)
+					}
+				}
 				if q.Op == "topk" && kept[b.Key] && !kept[a.Key] {
 					t.Fatalf("%s: keeps {%s} %v but drops {%s} %v which is greater at every point", expr, b.Key, b.V, a.Key, a.V)
 				}
@@ -1294,13 +1365,27 @@ func c27GenData(t *rapid.T, c *c27Case) {
 		from = 0
 	}
 	to := c.End + 3 - int64(c27U(t, 6, "datato"))
+	early := c27U(t, 2, "early") == 0
 	for _, combo := range combos {
 		if c27U(t, 10, "series-absent") == 0 && len(combos) > 1 {
 			continue
 		}
 		level := c27U(t, 40, "level")
-		for T := from; T < to; T++ {
-			if c27U(t, 100, "present") >= presence {
+		// some series report only before the query start: the storage still returns them (hidden slot in front of the
+		// interval) but they have no point in the evaluated range
+		sfrom, sto := from, to
+		if early && c27U(t, 3, "early-series") == 0 {
+			st := c.Step
+			if st == 0 {
+				st = 1
+			}
+			sfrom, sto = c.Start-2*st, c.Start
+			if sfrom < 0 {
+				sfrom = 0
+			}
+		}
+		for T := sfrom; T < sto; T++ {
+			if sto == to && c27U(t, 100, "present") >= presence {
 				continue
 			}
 			n := ucount
@@ -1375,7 +1460,7 @@ func c27GenAgg() *rapid.Generator[c27Case] {
 		c27GenWindow(t, &c)
 		c27GenData(t, &c)
 		q := c27Query{Sub: "agg"}
-		q.Op = c27Pick(t, []string{"sum", "min", "max", "avg", "count", "group", "stddev", "stdvar", "quantile", "quantile", "topk", "bottomk"}, "op")
+		q.Op = c27Pick(t, []string{"sum", "min", "max", "avg", "count", "group", "stddev", "stdvar", "quantile", "quantile", "topk", "bottomk", "topk", "bottomk", "bottomk", "sort", "sort_desc"}, "op")
 		switch q.Op {
 		case "quantile":
 			q.Param = vpF([]float64{0.5, 0, 1, 0.25, 0.9, 0.33, -1, 2}[c27U(t, 8, "phi")])
@@ -1383,7 +1468,8 @@ func c27GenAgg() *rapid.Generator[c27Case] {
 			q.Param = vpF(float64([]int{1, 2, 3, 1, 5, 0}[c27U(t, 6, "k")]))
 		}
 		q.What = c27Pick(t, c27Whats, "what")
-		q.Inner = c27Pick(t, []string{"plus0", "plus0", "neg", "abs", "mul2"}, "inner")
+		q.Inner = c27Pick(t, []string{"plus0", "plus0", "neg", "abs", "mul2", "gt", "lt"}, "inner")
+		q.Thr = vpF(float64(c27U(t, 56, "thr") - 10))
 		c27GenMod(t, &c, &q)
 		c27GenFilter(t, &c, &q)
 		c.Q = q
